@@ -64,11 +64,65 @@ def search_perm_dependence(rec, seed):
     return best
 
 
+def renumbering(v, tier, seed):
+    """numbering-invariance half, at the value level: the '-' cell gets every kind of valid local numbering
+    (random element of the cell's symmetry group / all vertex permutations for simplices); with '+' at code 0
+    some code of the '-' side must reproduce the integral computed geometrically (the oracle pulls the
+    physical point back into the renumbered '-' cell), and cases with a single matching code must agree on
+    it for equal (cell, renumbering, facets)."""
+    import common
+    import p_c02
+    cases = [c for c in corpus.PINNED + p_c02.EXTRA + EXTRA if "dS" in c["code"]]
+    rounds = 4 if tier == "quick" else 30
+    stats = {"kernel_runs": 0, "no_code_matches": 0, "unique_code": 0, "all_codes": 0, "orientations": 0, "unsupported": 0}
+    seen = {}
+    orient = set()
+    for rnd in range(rounds):
+        res = common.run_cases(cases, script="oraclerun.py", timeout=400,
+                               extra={"seed": seed + 7919 * rnd, "entity_mode": "random", "affine": True, "renumber": True})
+        for r in res:
+            if r["status"] != "ok":
+                continue
+            for k in r["kernels"]:
+                if k.get("status") == "unsupported":
+                    stats["unsupported"] += 1
+                if k.get("integral_type") != "interior_facet" or k["status"] not in ("agree", "mismatch"):
+                    continue
+                stats["kernel_runs"] += 1
+                ok = k["status"] == "agree"
+                v.oblige(ok)
+                if not ok:
+                    stats["no_code_matches"] += 1
+                    v.violation(f"c03-renumber:{r['id']}", f"with the '-' cell renumbered no permutation code reproduces the interior-facet integral (case {r['id']}, relative error {k['error']:.3g})",
+                                {"case": r["id"], "code": r["code"], "renumbering": k.get("codes"), "seed": seed + 7919 * rnd})
+                    continue
+                for c in k.get("codes", []):
+                    cell = r["code"].split('mesh("')[1].split('"')[0] if 'mesh("' in r["code"] else "?"
+                    key = (cell, tuple(c["sigma"]), tuple(c["facets"]))
+                    orient.add(key)
+                    if len(c["codes_within_tol"]) == 1:
+                        stats["unique_code"] += 1
+                        prev = seen.setdefault(key, (c["matching_code"], r["id"]))
+                        same = prev[0] == c["matching_code"]
+                        v.oblige(same)
+                        if not same:
+                            v.violation(f"c03-code-convention:{r['id']}", f"the permutation code that matches a given renumbering differs between kernels: {prev[0]} in {prev[1]}, {c['matching_code']} in {r['id']}",
+                                        {"case": r["id"], "code": r["code"], "renumbering": c, "other_case": prev[1]})
+                    else:
+                        stats["all_codes"] += 1
+    stats["orientations"] = len(orient)
+    if len(v.samples) < 8 and seen:
+        k0 = next(iter(seen))
+        v.samples.append({"renumbering": {"cell": k0[0], "sigma": list(k0[1]), "facets": list(k0[2]), "matching_code": seen[k0][0]}})
+    return {"renumbering": stats}
+
+
 def run(v, tier, seed, g):
     return astprops.run_ast_property(
         v, tier, seed, g, "safe_flag", "C03", search_perm_dependence,
         "kernel flagged needs_facet_permutations=false reads quadrature_permutation", extra_pinned=EXTRA,
-        extra_assumptions=["DOLFINx's computation of the permutation codes is outside FFCx"])
+        extra_assumptions=["DOLFINx's computation of the permutation codes is outside FFCx: the value half shows that for every renumbering SOME code (consistently the same one) reproduces the integral, not that DOLFINx picks it"],
+        extra_run=renumbering)
 
 
 def replay(v, payload):
